@@ -611,7 +611,7 @@ def rules(rep, m):
     for rid, root, cons, msg, where in [f for f in out["findings"] if f[0] == "R-C02-3"]:
         rep.finding(r3, root, cons, msg, where=where)
     # the tombstoned slot is the departing entry's
-    for fn, expect in (("cmi_hashheap_dequeue", r".+\[0\]\.hash_index|.+\[1\]\.hash_index"),
+    for fn, expect in (("cmi_hashheap_dequeue", r".+\[0\](@\d+)?\.hash_index|.+\[1\](@\d+)?\.hash_index"),
                        ("cmi_hashheap_remove", r".+\[cmi_hash_find_index\(.+\)\]\.hash_index")):
         ts = sorted({j for root, f2, j, where in out["tombs"] if root == fn})
         r3.instance("%s tombstones hash[%s]" % (fn, ts))
